@@ -76,6 +76,13 @@ def step (s : St) (toks : List String) : St × String :=
       let c : CallCtx := { g := s.g, level := s.level, cfg := s.cfg, settable := fun w => s.settable.contains w, fails := failsOf bits }
       (s, showRecords (logCall c 0 sev).1)
     | none => (s, "bad-op")
+  | "calls" :: bits :: sevs =>
+    -- a history of calls under ONE failure schedule running across all of them (Model/Pipeline.runCalls)
+    match sevs.mapM String.toInt? with
+    | some sevs =>
+      let c : CallCtx := { g := s.g, level := s.level, cfg := s.cfg, settable := fun w => s.settable.contains w, fails := failsOf bits }
+      (s, ";".intercalate ((runCalls c 0 sevs).1.map showRecords))
+    | none => (s, "bad-op")
   | _ => (s, "bad-op")
 
 end Logg.Drive.C03
